@@ -1110,6 +1110,48 @@ theorem C08_unbiased_statistics_mixed (am ph : PRBM ℝ n hid a) (c B : ℕ) (hB
   obtain ⟨val, hv, he⟩ := h5 hc
   exact ⟨val, hv, (hE _).trans he⟩
 
+/-- **(b) … positive wavefunction** (late theorem; the instance the extension round left open): the same statement as
+`C08_unbiased_statistics` for `ψ_λ = sqrt(p_λ)` (`PositiveWaveFunction`), i.e. `C08_statistics_mean_generic` instantiated with
+`C08_born_stationary` clause 2/5 and `gibbsStepsB_law`, then `C08_pure_rbm_pos`.  `B ≥ 1` chains started i.i.d. from
+`p = ψ_λ²/Σψ_λ²`, threaded through `gibbsStepsB k` with `k = [burn_in, steps, …]`, `T = ⌈num_samples/B⌉` draws: the expectation of
+the mean `statistics` reports is the exact `p`-average of ANY per-sample function, and `⟨ψ|O|ψ⟩/⟨ψ|ψ⟩` for `SigmaX`, `SigmaY`,
+`SigmaZ`, `NeighbourInteraction` periodic / open.  (For `SigmaY` the right-hand side is what `C08_pure_states` gives, the real part
+of `⟨ψ|Y|ψ⟩/⟨ψ|ψ⟩`; that it vanishes for a real positive `ψ` is NOT part of this statement.) -/
+theorem C08_unbiased_statistics_pos (am : RBM ℝ n hid) (c B : ℕ) (hB : 1 ≤ B) (ns burnIn steps T : ℕ) (hns : 1 ≤ ns)
+    (hT : numTimeSteps ns B = .ok T) :
+    let psi : Cfg n → C ℝ := fun σ => Wave.psiPos am (fun j => bit (σ j))
+    let E : (Cfg n → ℝ) → ℝ := fun f => ∑ vs₀ : Fin B → Cfg n, (∏ b, bornPure psi (vs₀ b)) *
+      (drawsProg (fun k => am.gibbsStepsB k) burnIn steps T 0 vs₀).expect
+        (fun sts => C13.mean ((sts.map (batchVals f)).flatten))
+    (∀ f, E f = ∑ σ, bornPure psi σ * f σ)
+    ∧ (E (fun σ => sigmaXApply (ImpState.pure psi) false σ) = (expectation psi (magnetOp pauliX)).re)
+    ∧ (E (fun σ => sigmaYApply (ImpState.pure psi) false σ) = (expectation psi (magnetOp pauliY)).re)
+    ∧ (0 < n → E (fun σ => sigmaZApply false σ) = (expectation psi (magnetOp pauliZ)).re)
+    ∧ (E (fun σ => neighbourPeriodicApply c σ) = (expectation psi (neighbourPeriodicOp c)).re)
+    ∧ (1 ≤ c → ∃ val : Cfg n → ℝ, (∀ σ, neighbourOpenApply c σ = .ok (val σ)) ∧
+        E val = (expectation psi (neighbourOpenOp c)).re) := by
+  intro psi E
+  have q0 : PRBM ℝ n hid 0 := ⟨fun _ _ => 0, fun _ _ => 0, fun _ => 0, fun _ => 0, fun _ => 0⟩
+  have hE : ∀ f, E f = ∑ σ, bornPure psi σ * f σ := fun f =>
+    (C08_statistics_mean_generic (bornPure psi) (C08_born_stationary am am q0 0 (fun _ => false)).2.2.2.2.1
+      (fun k => am.gibbsSteps k) B (fun k => am.gibbsStepsB k) (fun k vs ws => (gibbsStepsB_law am q0 k vs ws).1)
+      (fun k w => (C08_born_stationary am am q0 k w).2.1) f hB ns 0 burnIn steps T hns hT false (fun _ _ => false)).2
+  obtain ⟨h1, h2, h3, h4, h5⟩ := C08_pure_rbm_pos am c
+  refine ⟨hE, (hE _).trans h1, (hE _).trans h2, fun hn => (hE _).trans (h3 hn), (hE _).trans h4, fun hc => ?_⟩
+  obtain ⟨val, hv, he⟩ := h5 hc
+  exact ⟨val, hv, (hE _).trans he⟩
+
+/-- non-vacuity of `C08_unbiased_statistics_pos`: a positive RBM state on two sites (`h = 3`), 3 chains, 7 requested samples
+(= 3 draws), burn-in 5, 2 steps between draws, `NeighbourInteraction(periodic_bcs=True, c=1)`. -/
+example : let am : RBM ℝ 2 3 := ⟨fun i j => (i.val : ℝ) - j.val + 0.5, fun j => if j = 0 then -1.5 else 2,
+      fun i => if i = 0 then 0.7 else -0.3⟩
+    let psi : Cfg 2 → C ℝ := fun σ => Wave.psiPos am (fun j => bit (σ j))
+    ∑ vs₀ : Fin 3 → Cfg 2, (∏ b, bornPure psi (vs₀ b)) *
+      (drawsProg (fun k => am.gibbsStepsB k) 5 2 3 0 vs₀).expect
+        (fun sts => C13.mean ((sts.map (batchVals (fun σ => neighbourPeriodicApply 1 σ))).flatten))
+      = (expectation psi (neighbourPeriodicOp 1)).re :=
+  (C08_unbiased_statistics_pos _ 1 3 (by norm_num) 7 5 2 3 (by norm_num) (by decide)).2.2.2.2.1
+
 /-- non-vacuity: a concrete complex RBM state on two sites (`h = 3 ≠ n`, biases of both signs), 3 chains, 7 requested samples
 (= 3 draws), burn-in 5, 2 steps between draws: the expectation of the reported `SigmaY` mean is `⟨Y⟩`. -/
 example : let am : RBM ℝ 2 3 := ⟨fun i j => (i.val : ℝ) - j.val + 0.5, fun j => if j = 0 then -1.5 else 2,
